@@ -144,6 +144,13 @@ def _mk(spec):
 	return None
 
 
+def _RB(f):
+	try:
+		return f().hex()
+	except Exception as exc:
+		return 'exc:' + type(exc).__name__
+
+
 def impl(c):
 	import datetime
 	from httoop.date import Date
@@ -153,7 +160,9 @@ def impl(c):
 		t = c['t']
 		comp = bytes(Date(t))
 		return {'c': comp.hex(), 'p': [_R(lambda: Date.parse(comp)), _R(lambda: Date.parse(ref_850(t))), _R(lambda: Date.parse(ref_asc(t))),
-			_R(lambda: Date(comp.decode('ascii'))), _R(lambda: Date(Date(comp)))]}
+			_R(lambda: Date(comp.decode('ascii'))), _R(lambda: Date(Date(comp)))],
+			# serialising a Date built from each textual form must give the canonical IMF-fixdate again
+			'cc': [_RB(lambda: bytes(Date(comp))), _RB(lambda: bytes(Date(ref_850(t)))), _RB(lambda: bytes(Date(ref_asc(t))))]}
 	if k == 'compose':
 		try:
 			return {'c': bytes(Date(c['t'])).hex()}
@@ -678,6 +687,11 @@ def oracle(c, o):
 				continue
 			if r['p'][i] != t:
 				return 'round trip through the %s form: instant %d is read back as %r' % (name, t, r['p'][i])
+		for i, name in enumerate(['IMF-fixdate', 'RFC 850', 'asctime']):
+			if i == 1 and t > MAX_T_850:
+				continue
+			if r.get('cc') and r['cc'][i] != ref_imf(t).hex():
+				return 'a Date built from the %s text of instant %d is serialised as %r instead of the IMF-fixdate %r' % (name, t, r['cc'][i], ref_imf(t))
 		return None
 	if k == 'gmtime':
 		if 0 <= c['t'] <= MAX_T and (r['g'] != list(ref_civil(c['t'])) or r['dt'] != r['g']):
